@@ -217,6 +217,49 @@ def check_c18(tier, seed, res, work):
     stats['correspondence_disagreements'] = nd
     if known:
         res.known_hits['D32'] = known
+    # the HOSTED path of ci: the same rule files packaged by the bundling script and loaded the way `ci --ruleset cpf/<name>`
+    # loads them must reach cmd.ParseQuery with the text of the file (headers with any fields in any order, query lines
+    # beginning with `*`, `/`, `-` ...): otherwise ci extracts another query or other metadata than from the directory
+    lay = work + '/hosted'
+    rd = lay + '/pathfinder-rules/c18rules'
+    os.makedirs(lay + '/pathfinder-rules/gen-script', exist_ok=True)
+    os.makedirs(rd, exist_ok=True)
+    gen_cases = [(cid, text) for cid, text in cases if cid.startswith('r')]
+    for cid, text in gen_cases:
+        open('%s/%s.cql' % (rd, cid), 'wb').write(text)
+    rc, o, e = run([B + '/gen-script'], timeout=300, cwd=lay + '/pathfinder-rules/gen-script')
+    bundle = lay + '/docs/public/rules/c18rules.json'
+    if rc == 0 and os.path.exists(bundle):
+        rc, o, e = run([B + '/harness', 'bundle-load', bundle, rd, lay + '/load.out'], timeout=300, env=dict(ENV, HOME=work))
+        out = dict((l.split(' ')[0], l.rstrip('\n').split(' ')[1:]) for l in open(lay + '/load.out')) if rc == 0 else {}
+        if out.get('HOSTED', ['x'])[0] == 'ok':
+            hosted = Counter(unhx(x) for x in re.findall(r'x[0-9a-f]*', out['HOSTED'][1]))
+            local = Counter(text for _, text in gen_cases)
+            stats['hosted_rule_texts'] = sum(hosted.values())
+            if hosted != local:
+                # texts differ (C20's business); for THIS property what counts is what ci extracts from them
+                hl = []
+                for j_, h_ in enumerate(sorted(hosted.elements())):
+                    fp_ = '%s/h%d.cql' % (lay, j_)
+                    open(fp_, 'wb').write(h_)
+                    hl.append('h%d %s %s' % (j_, fp_, hx(b'')))
+                open(lay + '/h.lst', 'w').write('\n'.join(hl) + '\n')
+                run([B + '/harness', 'rules', lay + '/h.lst', lay + '/h.out'], timeout=600, env=dict(ENV, HOME=work))
+                key = lambda d_: tuple(d_.get(k_, '') for k_ in ('id', 'desc', 'sev', 'impact', 'provider', 'citoks'))
+                hk = Counter(key(dict(kv.split('=', 1) for kv in l.rstrip('\n').split(' ')[2:])) for l in open(lay + '/h.out') if l.startswith('RULE '))
+                lk = Counter(key(impl[cid]) for cid, _ in gen_cases if cid in impl)
+                stats['hosted_texts_differing'] = sum((local - hosted).values())
+            if hosted != local and hk != lk:
+                lostk = next(iter((lk - hk).elements()))
+                lost = next((t_ for cid_, t_ in gen_cases if cid_ in impl and key(impl[cid_]) == lostk), b'')
+                near = next((h for h in (hosted - local).elements() if h[:40] == lost[:40]), b'')
+                res.violations.append(dict(property='C18', what='through the hosted bundle ci extracts another query or other metadata from a rule than from the file in the directory',
+                                           rule_file=lost.decode('utf-8', 'replace'), as_served=near.decode('utf-8', 'replace'),
+                                           how='run pathfinder-rules/gen-script on a directory holding the rule file, serve docs/public/rules/<dir>.json to `ci --ruleset cpf/<dir>` (stub transport)'))
+        else:
+            res.tie_broken.append('hosted path: loading the bundle of the generated rule files failed: %s' % str(out)[:200])
+    else:
+        res.tie_broken.append('hosted path: the bundling script failed on the generated rule files: %s' % e.decode(errors='replace')[-200:])
     end_to_end_c18(tier, seed, res, work, stats)
     return stats, [cases[0][1].decode('utf-8', 'replace'), cases[1][1].decode('utf-8', 'replace')]
 
